@@ -11,7 +11,7 @@ CHECKS = {
  "C01": dict(
     level="model_checking", ref="DESIGN.md §4 C01",
     technique="TLA+ spec RtStream/RtStreamAbs checked by TLC + TLC-generated call sequences replayed through libovni and validated against the spec (trace validation)",
-    text="TLC explores every call sequence of the scaled faithful model (CAP=56) and every fill level of the real 2 MiB buffer in the size-abstracted model; invariants Fidelity, OnlyMarkers, HeaderFirst, Tiling, BufferBound. The spec is bound to src/rt/ovni.c by replaying every call at every one of the last 64 fill levels plus TLC -simulate walks through the real library and validating the recorded file sizes and the decoded stream with RtStreamTrace.tla; runs are repeated under an LD_PRELOAD shim that makes write() truthfully short, and three-thread programs (all threads freeing at once, with and without relocation from OVNI_TMPDIR) are validated stream by stream. The inductive invariant 0 <= fill < CAP and no nested flush (RtStreamInd.tla, same arithmetic module) is discharged by Apalache for the real capacity and a symbolic jumbo size.",
+    text="TLC explores every call sequence of the scaled faithful model (CAP=56) and every fill level of the real 2 MiB buffer in the size-abstracted model; invariants Fidelity, OnlyMarkers, HeaderFirst, Tiling, BufferBound. The spec is bound to src/rt/ovni.c by replaying every call at every one of the last 64 fill levels plus TLC -simulate walks through the real library and validating the recorded file sizes and the decoded stream with RtStreamTrace.tla; runs are repeated under an LD_PRELOAD shim that makes write() truthfully short, and three-thread programs (all threads freeing at once, with and without relocation from OVNI_TMPDIR) are validated stream by stream; scripts also run with relocation, with 7-digit pid/tid, without the execute event in front and with every sequence of up to three small events before the first flush. The inductive invariant 0 <= fill < CAP and no nested flush (RtStreamInd.tla, same arithmetic module) is discharged by Apalache for the real capacity and a symbolic jumbo size.",
     note="Payload/jumbo bytes are opaque ids in TLA+; their byte equality (MCV, clock, payload, jumbo data) is checked by the harness decoder against the driver's emit log. Logical clock abstracts CLOCK_MONOTONIC. Exhaustive only within the stated constants."),
  "C02": dict(
     level="model_checking", ref="DESIGN.md §4 C02",
@@ -22,7 +22,7 @@ CHECKS = {
  "C04": dict(
     level="model_checking", ref="DESIGN.md §4 C04",
     technique="TLA+ spec EmuCore/EmuFull (thread state machine) explored by TLC; one ovniemu history per model transition (accepted and rejected, with legal completion); observed thread.prv timelines and verdict validated by EmuTrace.tla",
-    text="TLC enumerates the full state graph of 2 threads x {OHx,OHp,OHr,OHc,OHw,OHe} x 3 CPU targets with invariants (TidShownIffActive, CpuIffStarted, ...). Every transition of the graph becomes a synthetic trace replayed by the real ovniemu; trace validation compares the state/TID/CPU timelines after every event and the final verdict with the specification, so both directions of the 'accepted exactly when legal' claim are exercised.",
+    text="TLC enumerates the full state graph of 2 threads x {OHx,OHp,OHr,OHc,OHw,OHe} x 3 CPU targets with invariants (TidShownIffActive, CpuIffStarted, ...). Every transition of the graph becomes a synthetic trace replayed by the real ovniemu (accepted with completion, rejected, rejected with completion, and cut short before the completion; a quarter with same-instant events); trace validation compares the state/TID/CPU timelines after every event and the final verdict with the specification, so both directions of the 'accepted exactly when legal' claim are exercised.",
     note="Bounded: 2 threads, histories up to the graph diameter; rows identified through .row names. Events of a stream after its thread is dead are Unspecified (a dead thread executing again is rejected: fixed defect 958e849)."),
  "C05": dict(
     level="model_checking", ref="DESIGN.md §4 C05",
@@ -54,7 +54,7 @@ CHECKS = {
     level="fault_enumeration", ref="DESIGN.md §4 C09",
     technique="TLA+ spec RtFs (literal system-call sequence of the runtime + Crash between any two calls) checked by TLC; every system call index of every scenario program is killed with strace on the real library and the surviving directories + ovniemu verdict are validated by RtFsTrace.tla",
     text="TLC checks C09a/C09b on the bounded family (direct/tmp mode, 1-2 flushes, copy chunk sizes, both readdir orders, accepted-prefix positions) and refutes the negative configurations (relocation in readdir order). On the code: the strace call list of each scenario must be exactly the model's script, and for every call index N the process is re-run with SIGKILL at the entry of call N; the abstract disk state must equal the model state at that crash point and the monitors are evaluated with the observed emulator verdict. The error-injection family of C10 is also run and judged by the C09 monitors (a stream is marked finished only after its bytes are in place, also on the error paths). Spec RtFs2 (two threads of one process, whole-directory acceptance by the emulator; negative configuration refuted) is bound by two-thread programs: strace -P confines the injection to the files of one thread, every matching call of either thread is killed / failed and the per-stream disk state + emulator verdicts are judged by the multi-stream monitors.",
-    note="Single-threaded scenarios plus two-thread programs whose threads run one after the other (threads write disjoint directories); SIGKILL delivered by strace at syscall entry; the emulator is the observation of 'accepted'. The scenario 'boundary-tmp' places the end event exactly on the stdio copy-chunk boundary."),
+    note="Single-threaded scenarios plus two-thread programs whose threads run one after the other (threads write disjoint directories); SIGKILL delivered by strace at syscall entry; the emulator is the observation of 'accepted'. The scenario 'boundary-tmp' places the end event exactly on the stdio copy-chunk boundary, 'bigmeta' has metadata larger than a stdio buffer."),
  "C10": dict(
     level="fault_enumeration", ref="DESIGN.md §4 C10",
     technique="TLA+ spec RtFs with a Fail alternative for every call (one fault per run) checked by TLC; every libovni system call of every scenario is failed with strace error injection on the real library and the outcome is judged by the C10 monitors of RtFsTrace.tla",
@@ -63,7 +63,7 @@ CHECKS = {
  "C11": dict(
     level="model_checking", ref="DESIGN.md §4 C11",
     technique="TLA+ specs RtProc (CAS-guarded life-cycle, thread-local state) and RtAttr (per-thread metadata) checked by TLC over all interleavings; TLC -simulate schedules replayed step by step on libovni through the hook points (drivers/mtdrive) and validated by RtProcTrace.tla; free-running runs under ThreadSanitizer",
-    text="All interleavings of 3 threads over 7 programs at linearization-point granularity with InitOnce, FiniOnce, RecordStableWhileRead, NoOpBeforeReady, Isolation, StMonotone; a load+store 'CAS' is refuted. ~1000 (quick) generated schedules are forced on the real library with gates at ovni_verif_point 1-4 and before each API call; every step outcome, refusal class and the per-thread streams on disk are validated. Free-running programs (no gates) with racing init/fini/thread_init are run many times, also under ThreadSanitizer with relocation (OVNI_TMPDIR) on; the per-operation outcomes of every run must be one of the outcome vectors TLC computes for that program (RtProcFree.tla) and TSan must report nothing. The attribute API (spec RtAttr: metadata tree with parson's dot-path rules, get/has/flush, what ovni_thread_free stores) is explored by TLC and thousands of single- and multi-threaded call sequences are replayed on libovni comparing every return value / death and each thread's stream.json with the tree TLC expects for that thread.",
+    text="All interleavings of 3 threads over 7 programs at linearization-point granularity with InitOnce, FiniOnce, RecordStableWhileRead, NoOpBeforeReady, Isolation, StMonotone; a load+store 'CAS' is refuted. ~1000 (quick) generated schedules are forced on the real library with gates at ovni_verif_point 1-4 and before each API call; every step outcome, refusal class and the per-thread streams on disk are validated. Free-running programs (no gates) with racing init/fini/thread_init are run many times, also under ThreadSanitizer with relocation (OVNI_TMPDIR) on; the per-operation outcomes of every run must be one of the outcome vectors TLC computes for that program (RtProcFree.tla) and TSan must report nothing. The attribute API (spec RtAttr: metadata tree with parson's dot-path rules, get/has/flush, what ovni_thread_free stores) is explored by TLC and thousands of single- and multi-threaded call sequences are replayed on libovni comparing every return value / death and each thread's stream.json with the tree TLC expects for that thread; the multi-thread walks run once more under ThreadSanitizer.",
     note="Schedules are forced at API/hook granularity only; absence of data races in C is observed (TSan), not proved; a CAS weakened to load+store is caught by the model, only probabilistically on the code."),
  "C13": dict(
     level="model_checking", ref="DESIGN.md §4 C13",
@@ -79,12 +79,12 @@ CHECKS = {
     level="model_checking", ref="DESIGN.md §4 C15",
     technique="TLA+ spec SystemOps/System (property layer = function of the union of metadata; implementation layer = sequential first-come merge) checked by TLC over all distributions/orders/contradictions; exported cases materialised and run through ovniemu (verdict, signal, thread.row/cpu.row)",
     text="For every distribution of app_id/rank/loom_cpus over the threads, CPU list order, processing order and every single contradiction of the bounded family TLC checks that the merge agrees with the union semantics and that rows are distribution independent; a deterministic sample and all contradictions are run on the real emulator and rows/verdict/absence of signals compared.",
-    note="2 looms, 3 processes, 5 threads, plus a 3-loom family with rank information on any subset of the looms in 8 (thorough: all 120) processing orders; equal sort keys are Unspecified."),
+    note="2 looms, 3 processes, 5 threads, plus a 3-loom family (one PID used in two looms) with rank information on any subset of the looms in 8 (thorough: all 120) processing orders; equal sort keys are Unspecified."),
 
  "C18": dict(
     level="model_checking", ref="DESIGN.md §4 C18",
     technique="TLA+ spec Catalogue (over EmuFull + committed event tables): witness contexts by TLC reachability, verdict for every code of the 8 x 94 x 94 code space, Decode of description templates; probes and decodings replayed on ovnievents / ovniemu / ovnidump",
-    text="TLC finds for each of the 348 listed events the shortest history after which it is accepted, evaluates the reference semantics on all 70,688 printable three-character codes plus the single-bit changes and bit-7 images of every listed code (thorough: all 397,832 codes with bytes 33..255) (invariant: rejected exactly when neither listed nor excepted) and computes the expected ovnidump text for argument vectors; ovnievents output is compared with the committed table in both directions, every listed event is replayed in its witness context, unlisted codes are probed (quick: neighbourhood + sample + payload-shaped probes; thorough: the whole space) and decodings compared.",
+    text="TLC finds for each of the 348 listed events the shortest history after which it is accepted, evaluates the reference semantics on all 70,688 printable three-character codes plus the single-bit changes and bit-7 images of every listed code (thorough: all 397,832 codes with bytes 33..255) (invariant: rejected exactly when neither listed nor excepted) and computes the expected ovnidump text for argument vectors (integers over the whole range of each type, labels incl. UTF-8 bytes); ovnievents output is compared with the committed table in both directions, every listed event is replayed in its witness context, unlisted codes are probed (quick: neighbourhood + sample + payload-shaped probes; thorough: the whole space) and decodings compared.",
     note="The table is committed data; printf formatting is reproduced for the conversions the catalogue uses."),
  "C20": dict(
     level="model_checking", ref="DESIGN.md §4 C20",
@@ -95,7 +95,7 @@ CHECKS = {
  "C03": dict(
     level="model_checking", ref="DESIGN.md §4 C03",
     technique="TLA+ specs Player/PlayerMerge (property layer Merge), PtrHeap/PlayerHeap/HeapOps (heap.h and player.c transcribed) checked by TLC incl. refinement HeapPlayer => Merge; exported heap op sequences replayed on the real heap.h (drivers/heapharness), exported stream sets replayed through ovnidump/ovnitop/ovniemu in several enumeration orders and validated by PlayerTrace.tla",
-    text="TLC checks the structural heap invariants and that every emission of the pointer-heap player is an allowed step of the abstract k-way merge (ties free), corrected clocks and output times, independence of the enumeration order, with 12 refuted negative configurations. ~19k heap op sequences are replayed on heap.h comparing popped keys and the whole pointer structure; 1200 (quick) stream sets with offset tables are materialised in several directory orders (and nftw orders through a shim), also with clocks seconds apart, with looms sharing a host name and with a loom or thread directory reached through a symbolic link, and the observed replay order / PRV times validated by TLC.",
+    text="TLC checks the structural heap invariants and that every emission of the pointer-heap player is an allowed step of the abstract k-way merge (ties free), corrected clocks and output times, independence of the enumeration order, with 12 refuted negative configurations. ~19k heap op sequences are replayed on heap.h comparing popped keys and the whole pointer structure; 1200 (quick) stream sets with offset tables are materialised in several directory orders (and nftw orders through a shim), also with clocks seconds apart, with looms sharing a host name, with offset tables in integer / fixed / exponent notation and with a loom or thread directory reached through a symbolic link, and the observed replay order / PRV times validated by TLC.",
     note="ovnidump/ovnitop have no clock-offset input (offsets exercised on ovniemu only); a stream whose first corrected clock is negative is refused by the code (modelled via Base, assumption)."),
  "C12": dict(
     level="model_checking", ref="DESIGN.md §4 C12",
